@@ -8,7 +8,6 @@ type tagCycleValue struct {
 type tagCycleNode struct {
 	position *Token
 	args     []IEvaluator
-	idx      int
 	asName   string
 	silent   bool
 }
@@ -17,9 +16,19 @@ func (cv *tagCycleValue) String() string {
 	return cv.value.String()
 }
 
+// next returns the argument the cycle is at and advances the position, which is
+// kept in the execution context (not in the compiled node).
+func (node *tagCycleNode) next(ctx *ExecutionContext) IEvaluator {
+	idx, _ := ctx.getNodeState(node).(int)
+	if idx < 0 || idx >= len(node.args) {
+		idx = 0
+	}
+	ctx.setNodeState(node, (idx+1)%len(node.args))
+	return node.args[idx]
+}
+
 func (node *tagCycleNode) Execute(ctx *ExecutionContext, writer TemplateWriter) *Error {
-	item := node.args[node.idx%len(node.args)]
-	node.idx++
+	item := node.next(ctx)
 
 	val, err := item.Evaluate(ctx)
 	if err != nil {
@@ -31,8 +40,7 @@ func (node *tagCycleNode) Execute(ctx *ExecutionContext, writer TemplateWriter) 
 		// {% cycle cycleitem %}
 
 		// Update the cycle value with next value
-		item := t.node.args[t.node.idx%len(t.node.args)]
-		t.node.idx++
+		item := t.node.next(ctx)
 
 		val, err := item.Evaluate(ctx)
 		if err != nil {
@@ -96,6 +104,10 @@ func tagCycleParser(doc *Parser, start *Token, arguments *Parser) (INodeTag, *Er
 
 	if arguments.Remaining() > 0 {
 		return nil, arguments.Error("Malformed cycle-tag.", nil)
+	}
+
+	if len(cycleNode.args) == 0 {
+		return nil, arguments.Error("Tag 'cycle' requires at least one argument.", nil)
 	}
 
 	return cycleNode, nil
